@@ -120,6 +120,7 @@ class Family:
         items = [{"name": "#enter", "cat": ["enter"], "value": {"v": 1, "oid": 0}, "overridable": False},
                  {"name": "s", "cat": None, "value": {"v": -1, "oid": 0}}]
         raised = False
+        decl = None
         for sl, val in zip(self.slots[fi], script):
             if val is None:
                 continue
@@ -133,6 +134,10 @@ class Family:
                     break
             elif sl[0] == "gen":
                 continue
+            elif sl[0] == "decl":
+                decl = sl
+                raised = True
+                break
             else:
                 raised = True
                 break
@@ -141,7 +146,12 @@ class Family:
         else:
             items.append({"name": "#value", "cat": None, "value": {"v": script[-1], "oid": 0}})
         items.append({"name": "#exit", "cat": ["exit"], "value": {"v": 1, "oid": 0}, "overridable": False})
-        if raised:
+        if decl is not None:
+            # the interaction without a value is what ends the activation: the model's `interact` fails there with
+            # ptera's name error (the accumulators have been looked up, nothing is logged). It is listed last because the
+            # model stops at the failing item; nothing it does depends on the position among the meta events.
+            items.append({"name": decl[1], "cat": decl[2], "value": None})
+        elif raised:
             items.append({"name": "!raise", "cat": None, "value": None})
         return {"fn": fi, "items": items}, raised
 
